@@ -11,6 +11,7 @@ import Mathlib.Analysis.SpecialFunctions.Trigonometric.Bounds
                                    within `atol` of `r`'s.
   * `named_angle`                  the angle of each parameter-free default rotation at ℝ.
   * `composeRot_angle_large`       a `composeRot` result that does not test as identity has `|angle| ≥ 2·atol`.
+  * `composeRot_isIdentity_angle_zero`  a `composeRot` result that tests as identity has angle exactly `0`.
   * `renameKeepsNonIdentity_real`  `RenameKeepsNonIdentity atol` for `0 < atol ≤ π/4`.
   * `merge_per_qubit_order_real`, `merge_normal_form_real`   the per-qubit specification and the normal form (C14)
                                    at ℝ with no hypothesis left but `0 < atol ≤ π/4` and "the pass does not raise".
@@ -191,6 +192,29 @@ theorem composeRot_angle_large (atol : ℝ) (hatol : 0 < atol) (a b r : Rot ℝ)
         simp only [two_real]
         exact angle_bound atol _ hs
 
+/-- **"tests as identity ⇒ is the identity" for accumulators, proved.**  A `composeRot` result that tests as
+    identity is the exact identity rotation of the identity branch (angle `0`): the other branch has
+    `|angle| ≥ 2·atol`. -/
+theorem composeRot_isIdentity_angle_zero (atol : ℝ) (hatol : 0 < atol) (a b r : Rot ℝ)
+    (h : composeRot atol a b = .ok r) (hid : r.isIdentity atol = true) : r.angle = 0 := by
+  unfold composeRot at h
+  split at h
+  · cases h
+  · simp only at h
+    split at h
+    · injection h with h
+      rw [← h]; simp [identityRot]
+    · rename_i hs
+      split at h
+      · cases h
+      · exfalso
+        injection h with h
+        rw [← h] at hid
+        simp only [absS_real, trig_sin_real, two_real] at hs
+        have hb := angle_bound atol _ hs
+        simp only [Rot.isIdentity, two_real, absS_real, trig_sin_real, Bool.and_eq_true, decide_eq_true_eq] at hid
+        linarith [hid.1]
+
 /-- **`RenameKeepsNonIdentity` holds at ℝ for `0 < atol ≤ π/4`**: the only default gate that tests as identity
     is `I`, and it is never within `atol` of a non-identity `composeRot` result (`|angle| ≥ 2·atol`). -/
 theorem renameKeepsNonIdentity_real (atol : ℝ) (hatol : 0 < atol) (h4 : atol ≤ Real.pi / 4) :
@@ -250,6 +274,7 @@ example : (∀ q : Nat, q < 2 → noAdjBSR (trace (q : Int) (merge (1 / 10 ^ 7 :
 
 #print axioms defaultIsIdentity_real
 #print axioms renameKeepsNonIdentity_real
+#print axioms composeRot_isIdentity_angle_zero
 #print axioms merge_per_qubit_order_real
 #print axioms merge_normal_form_real
 
